@@ -339,12 +339,12 @@ theorem final_spec (mx : Nat) (tl : List (Nat × List Nat)) (htl : (keys tl).Nod
         · exact Or.inl (Or.inr h1)
         · exact Or.inr h1
 
-/-- `_signatures` before names: the sketch rebuilt for index `j` -/
-theorem sketches_spec (db : Db) :
-    (keys db.sketches).Nodup ∧ (∀ j, (M db.sketches j).Pairwise (· < ·)) ∧
-      (∀ j h, h ∈ M db.sketches j ↔ ∃ s, (h, s) ∈ db.hashvalToIdx ∧ j ∈ s ∧ h ≤ mhR db.scaled) ∧
-      (∀ j, j ∈ keys db.sketches ↔ ∃ h s, (h, s) ∈ db.hashvalToIdx ∧ j ∈ s) := by
-  unfold Db.sketches
+/-- the two inversion loops: the sketch rebuilt for every index that occurs in the inverted index -/
+theorem sketchesCore_spec (db : Db) :
+    (keys db.sketchesCore).Nodup ∧ (∀ j, (M db.sketchesCore j).Pairwise (· < ·)) ∧
+      (∀ j h, h ∈ M db.sketchesCore j ↔ ∃ s, (h, s) ∈ db.hashvalToIdx ∧ j ∈ s ∧ h ≤ mhR db.scaled) ∧
+      (∀ j, j ∈ keys db.sketchesCore ↔ ∃ h s, (h, s) ∈ db.hashvalToIdx ∧ j ∈ s) := by
+  unfold Db.sketchesCore
   simp only
   have h0 : SInv (mhR db.scaled) ({ temp := [], mhd := [] } : SigState) :=
     ⟨by simp [keys], by simp [keys], by intro j; simp [M]⟩
@@ -363,5 +363,71 @@ theorem sketches_spec (db : Db) :
     unfold present at this
     rw [this]
     simp [keys]
+
+/-- `for idx in self._idx_to_ident: mhd[idx]` adds the missing indices with an empty sketch and
+    changes nothing else -/
+theorem touchAll_spec (idxs : List Nat) {mhd : List (Nat × List Nat)} (hnd : (keys mhd).Nodup) :
+    (keys (touchAll mhd idxs)).Nodup ∧ (∀ j, M (touchAll mhd idxs) j = M mhd j) ∧
+      (∀ j, j ∈ keys (touchAll mhd idxs) ↔ j ∈ keys mhd ∨ j ∈ idxs) := by
+  unfold touchAll
+  induction idxs generalizing mhd with
+  | nil => simp [hnd]
+  | cons i is ih =>
+    simp only [List.foldl_cons]
+    by_cases hc : contains mhd i = true
+    · simp only [hc, if_true]
+      obtain ⟨a, b, c⟩ := ih hnd
+      refine ⟨a, b, ?_⟩
+      intro j
+      rw [c]
+      have hi : i ∈ keys mhd := get?_isSome_iff.mp hc
+      simp only [List.mem_cons]
+      constructor
+      · rintro (h | h)
+        · exact Or.inl h
+        · exact Or.inr (Or.inr h)
+      · rintro (h | h | h)
+        · exact Or.inl h
+        · exact Or.inl (h ▸ hi)
+        · exact Or.inr h
+    · simp only [hc, Bool.false_eq_true, if_false]
+      have hi : get? mhd i = none := by
+        unfold contains at hc
+        cases hg : get? mhd i with
+        | none => rfl
+        | some v => simp [hg] at hc
+      obtain ⟨a, b, c⟩ := ih (nodup_keys_set hnd i [])
+      refine ⟨a, ?_, ?_⟩
+      · intro j
+        rw [b, M_set]
+        by_cases hj : j = i
+        · subst hj; simp [M, hi]
+        · simp [hj]
+      · intro j
+        rw [c, mem_keys_set]
+        simp only [List.mem_cons]
+        constructor
+        · rintro ((h | h) | h)
+          · exact Or.inl h
+          · exact Or.inr (Or.inl h)
+          · exact Or.inr (Or.inr h)
+        · rintro (h | h | h)
+          · exact Or.inl (Or.inl h)
+          · exact Or.inl (Or.inr h)
+          · exact Or.inr h
+
+/-- `_signatures` before names: the sketch rebuilt for index `j`; an index is present iff it occurs in the
+    inverted index or is the index of some identifier -/
+theorem sketches_spec (db : Db) :
+    (keys db.sketches).Nodup ∧ (∀ j, (M db.sketches j).Pairwise (· < ·)) ∧
+      (∀ j h, h ∈ M db.sketches j ↔ ∃ s, (h, s) ∈ db.hashvalToIdx ∧ j ∈ s ∧ h ≤ mhR db.scaled) ∧
+      (∀ j, j ∈ keys db.sketches ↔ (∃ h s, (h, s) ∈ db.hashvalToIdx ∧ j ∈ s) ∨ j ∈ vals db.identToIdx) := by
+  obtain ⟨c1, c2, c3, c4⟩ := sketchesCore_spec db
+  obtain ⟨t1, t2, t3⟩ := touchAll_spec (vals db.identToIdx) c1
+  unfold Db.sketches
+  refine ⟨t1, ?_, ?_, ?_⟩
+  · intro j; rw [t2]; exact c2 j
+  · intro j h; rw [t2]; exact c3 j h
+  · intro j; rw [t3, c4]
 
 end Sm.Lca
